@@ -387,6 +387,34 @@ func newFixture(cfg sut.Config, masters, reps, spare int, variant string) (*Fixt
 	return f, nil
 }
 
+// startFixtureWith starts a proxy against an existing cluster and topology (seeded with the given node indexes).
+func startFixtureWith(cl *fakecluster.Cluster, topo *fakecluster.Topo, cfg sut.Config, seeds []int, excluded map[int]bool) (*Fixture, error) {
+	topo.Install(cl)
+	cl.SetPassword(cfg.Password)
+	cfg.Servers = nil
+	for _, i := range seeds {
+		cfg.Servers = append(cfg.Servers, cl.Nodes[i].Addr)
+	}
+	cfg.Preconnect = true
+	p, err := sut.Start(cfg)
+	if err != nil {
+		return nil, err
+	}
+	masters := 0
+	for i := range topo.Nodes {
+		if topo.Nodes[i].Master {
+			masters++
+		}
+	}
+	f := &Fixture{Cluster: cl, Topo: topo, Proxy: p, Cfg: cfg, Masters: masters, Owners: topo.Expected(excluded)}
+	if err := f.WaitRouting(12 * time.Second); err != nil {
+		p.Stop()
+		f.Proxy = nil
+		return nil, err
+	}
+	return f, nil
+}
+
 // WaitRouting waits until a probe for a slot of every master is served.
 func (f *Fixture) WaitRouting(timeout time.Duration) error {
 	deadline := time.Now().Add(timeout)
@@ -398,7 +426,7 @@ func (f *Fixture) WaitRouting(timeout time.Duration) error {
 		ok := true
 		for i := range f.Topo.Nodes {
 			n := &f.Topo.Nodes[i]
-			if !n.Master || len(n.Slots) == 0 {
+			if !n.Master || len(n.Slots) == 0 || !n.Usable() {
 				continue
 			}
 			key := refmodel.KeyInSlot(n.Slots[0][0], "ready")
